@@ -50,7 +50,7 @@ for w in (4, 8, 2, 1):
 # (1) the odometer
 # (1) the odometer.  NCcoordck and NC_varoffset are replaced inside NCvario by contracts proved here (unrolled rank <= 3).
 CK3 = dict(mode="bounded", defines=["PGIO_VARIO", "C03_W=4"], flags=["--no-malloc-may-fail"], gi_flags=["--no-malloc-may-fail"],
-           trusted=PIO_TRUST, **{**PIO, "objbits": 10})
+           trusted=PIO_TRUST, **{**PIO, "objbits": 11})
 ob("NCcoordck_r3", "C03", entry="h_NCcoordck3", enforce="H4_NCcoordck", replace=["hdf_get_vp_aid"], unwind=14, cex_unwind=14,
    bound="rank 1..3, extents <= 4, coordinates -2..16, numrecs <= 16, at most 3 fill records per call, element size 4", **CK3)
 ob("NC_varoffset_r3", "C03", entry="h_NC_varoffset3", enforce="NC_varoffset", unwind=6, cex_unwind=8,
@@ -58,7 +58,7 @@ ob("NC_varoffset_r3", "C03", entry="h_NC_varoffset3", enforce="NC_varoffset", un
 
 
 def va_unwindset(R):
-    w = "H4_NCvario_wrapped_for_contract_checking"
+    w = "H4_NCvario"  # not enforced: the function keeps its name
     inner, outer = (4, 2) if R == 2 else (5, 5)  # iteration counts of the ripple counter: see the unit
     d = {f"{w}.0": R + 2, f"{w}.1": R + 2, f"{w}.2": R + 2, f"{w}.3": inner + 1, f"{w}.4": outer + 1, "NCvcmaxcontig.0": R + 2}
     d.update({f"h_NCvario.{i}": 4 for i in range(5)})
@@ -66,7 +66,7 @@ def va_unwindset(R):
 
 
 def VA(R):
-    return dict(entry="h_NCvario", enforce="H4_NCvario", mode="bounded",
+    return dict(entry="h_NCvario", mode="bounded",
                 replace=["hdf_xdr_NCvdata", "H4_NCcoordck", "NC_varoffset"],
                 flags=["--no-malloc-may-fail", "--unwindset", va_unwindset(R)], gi_flags=["--no-malloc-may-fail"],
                 unwind=16, cex_unwind=16, defines=["PGIO_VARIO", f"MAXR={R}", "C03_W=4"],
@@ -74,7 +74,7 @@ def VA(R):
                       "variables, read and write, any file flags",
                 trusted=PIO_TRUST + ["hdf_xdr_NCvdata (run logger: contract preconditions are the checks)",
                                      "H4_NCcoordck, NC_varoffset (replaced by the contracts proved in NCcoordck_r3 / NC_varoffset_r3)"],
-                **{**PIO, "objbits": 10})
+                **{**PIO, "objbits": 11})
 
 
 ob("NCvario_r2", "C03", timeout=900, **VA(2))
